@@ -96,7 +96,7 @@ def gen_join_scenario(rng, variant, tier, style=None, stop=False):
             cons.append((rng.choice([0, 0, 10 * unit, Tm // 2, 2 * Tm]) if nocopy else 0,
                          rng.choice([0, 0, 20 * unit, Tm // 2, Tm, 4 * Tm])))
     close_after = rng.choice([2 * unit, 2 * Tm, 6 * Tm + 2 * unit])
-    capextra = rng.choice([0, 0, 1, J, 2 * J, -1, -1]) if variant == 1 else 0     # -1: empty input slices are nil slices
+    capextra = rng.choice([0, 0, 1, J, 2 * J, -1, -1, -2, -2]) if variant == 1 else 0     # -1: empty input slices are nil slices; -2: windows of one array
     stop_at = -1
     if stop and v1:
         horizon = sum(d for d, _ in prod) + close_after
